@@ -39,6 +39,10 @@ type Ctl struct {
 	Events []*Msg
 	// Timeout for one read of a response.
 	Timeout time.Duration
+	// SegmentBodyAt != 0: Do writes a request with a body as two TCP segments, cut SegmentBodyAt bytes into the
+	// body (negative: counted from its end), with a pause in between, so that the server's body reader sees a
+	// short read. A legal way for a network to deliver the request.
+	SegmentBodyAt int
 }
 
 // Dial opens a TCP connection to addr.
@@ -327,7 +331,23 @@ func readMsg(r *bufio.Reader) (*Msg, error) {
 // Do sends a request and reads messages up to and including its response; EVENT messages that arrive before
 // it are appended to k.Events and also returned.
 func (k *Ctl) Do(method, path, ctype string, body []byte) (*Msg, []*Msg, error) {
-	if err := k.Send(BuildRequest(method, path, ctype, body)); err != nil {
+	req := BuildRequest(method, path, ctype, body)
+	if k.SegmentBodyAt != 0 && len(body) > 1 && k.c2a == nil {
+		cut := k.SegmentBodyAt
+		if cut < 0 {
+			cut += len(body)
+		}
+		if cut <= 0 || cut >= len(body) {
+			cut = len(body) / 2
+		}
+		cut += len(req) - len(body)
+		if err := k.SendRaw(req[:cut]); err != nil {
+			return nil, nil, err
+		}
+		time.Sleep(25 * time.Millisecond)
+		req = req[cut:]
+	}
+	if err := k.Send(req); err != nil {
 		return nil, nil, err
 	}
 	return k.Await()
